@@ -22,8 +22,7 @@ IsSince(op) == op \in {"PlainDate.since", "PlainTime.since", "PlainDateTime.sinc
 TypeOf(op) == CASE op \in {"PlainDate.until", "PlainDate.since"} -> "PlainDate" [] op \in {"PlainTime.until", "PlainTime.since"} -> "PlainTime"
                 [] op \in {"PlainDateTime.until", "PlainDateTime.since"} -> "PlainDateTime" [] op \in {"Instant.until", "Instant.since"} -> "Instant"
                 [] OTHER -> "PlainYearMonth"
-\* the fixed duration rounded by Duration.round: P1DT1H36M36.6006006S -> existing largest unit day
-FixedDur == Dur10(Zero, Zero, Zero, FromInt(1), FromInt(1), FromInt(36), FromInt(36), FromInt(600), FromInt(600), FromInt(600))
+\* the duration rounded by Duration.round always has days as its largest unit (existing largest unit day)
 ResolveCell(c, mode) ==
   CASE c.op \in {"Duration.round"} -> ResolveDurationRound("day", c.lg, c.sm, c.inc, mode)
     [] c.op = "PlainDateTime.round" -> ResolveDateTimeRound(c.sm, c.inc, mode)
@@ -31,26 +30,51 @@ ResolveCell(c, mode) ==
     [] c.op = "Instant.round" -> ResolveInstantRound(c.sm, c.inc, mode)
     [] OTHER -> ResolveDiff(TypeOf(c.op), IsSince(c.op), c.lg, c.sm, c.inc, mode)
 
-\* separating operands
+\* Operands. They are chosen by the model for each cell, exactly HALF-WAY between two multiples of the resolved increment
+\* (value = (m + 1/2) * n with n = increment * unit length; (3n+1)/2 when n is odd), so that every rounding mode - including the
+\* half modes, whose negation by `since` only shows on a tie - gives a distinguishable result, and so do the defaults
+\* (trunc for differences, halfExpand for round). The harness executes the call on the operands carried by the case.
+NsOfCell(r) == IF r.smallest \in TimeUnits \cup {"day"} THEN IncNs(r.inc, r.smallest) ELSE FromInt(1)
+HalfUp(n) == TruncDivSmall(Add(n, FromInt(Parity(n))), 2).q                  \* ceil(n / 2)
+HalfPastB(n, mB) == Add(Mul(n, mB), HalfUp(n))                                 \* (m + 1/2) * n, rounded up to an integer; m a big
+HalfPast(n, m) == HalfPastB(n, FromInt(m))
 TA == Time(1, 0, 0, 0, 0, 0)
-TB == Time(2, 36, 36, 600, 600, 600)          \* 1.6 hours / minutes / seconds / ms / us later
+TimeB(r) == AddNs(TA, HalfPast(NsOfCell(r), 1)).time            \* 1.5 increments after 01:00 (at most 18 h later)
+TieTime(r) == AddNs(Midnight, HalfPast(NsOfCell(r), 1)).time     \* 1.5 increments after midnight (within the enclosing unit)
 IA == K9(FromInt(1000000))
-IB == Add(IA, TimeNsOf(Time(1, 36, 36, 600, 600, 600)))
+InstB(r) == Add(IA, HalfPast(NsOfCell(r), 1))
+TieInst(r) == Add(Mul(NsOfCell(r), FromInt(1000)), HalfPast(NsOfCell(r), 1))
 DA == DT(Date(2020, 1, 15), TA)
-DB == DT(Date(2020, 1, 16), TB)
+DB == DT(Date(2020, 1, 16), Time(2, 36, 36, 600, 600, 600))
+TieDT(r) == IF r.smallest = "day" THEN DT(Date(2020, 1, 16), Time(12, 0, 0, 0, 0, 0)) ELSE DT(Date(2020, 1, 16), TieTime(r))
+\* a duration of at least one day whose total is (m + 1/2) increments: days + nanoseconds fields
+FixedDur(r) == LET n == NsOfCell(r)
+                   mB == Add(TruncDivMod(DayNsBig, n).q, FromInt(1))             \* smallest m with (m + 1/2) n >= one day
+                   dm == TruncDivMod(HalfPastB(n, mB), DayNsBig)
+               IN Dur10(Zero, Zero, Zero, dm.q, Zero, Zero, Zero, Zero, Zero, dm.r)
+DefaultDur == Dur10(Zero, Zero, Zero, FromInt(1), FromInt(1), FromInt(36), FromInt(36), FromInt(600), FromInt(600), FromInt(600))
+DTJ(x) == [y |-> x.date.y, m |-> x.date.m, d |-> x.date.d, h |-> x.time.h, mi |-> x.time.mi, s |-> x.time.s, ms |-> x.time.ms, us |-> x.time.us, ns |-> x.time.ns]
+\* the operands of a cell (defaults when the options are rejected: the call must fail before looking at them)
+Rz(r) == IF r.kind = "ok" THEN r ELSE [kind |-> "ok", largest |-> "hour", smallest |-> "nanosecond", inc |-> 1, mode |-> "trunc"]
+Operands(c, r) ==
+  CASE c.op \in {"PlainTime.until", "PlainTime.since"} -> [a |-> TA, b |-> TimeB(Rz(r))]
+    [] c.op \in {"Instant.until", "Instant.since"} -> [a |-> IA, b |-> InstB(Rz(r))]
+    [] c.op = "PlainTime.round" -> [a |-> TieTime(Rz(r))]
+    [] c.op = "Instant.round" -> [a |-> TieInst(Rz(r))]
+    [] c.op = "PlainDateTime.round" -> [a |-> DTJ(TieDT(Rz(r)))]
+    [] c.op = "Duration.round" -> [a |-> IF r.kind = "ok" /\ r.smallest \notin CalendarUnits THEN FixedDur(r) ELSE DefaultDur]
+    [] c.op \in {"PlainDateTime.until", "PlainDateTime.since"} -> [a |-> DTJ(DA), b |-> DTJ(DB)]
+    [] OTHER -> [a |-> 0]
 \* expected outcome of the call: a value where the value-level specs decide it, otherwise "ok" (kind only)
 OkAny == [kind |-> "ok"]
-TimeOnly(r) == r.largest \in TimeUnits
 ExpectedOut(c, r) ==
   IF r.kind # "ok" THEN r
-  ELSE CASE c.op \in {"PlainTime.until", "PlainTime.since"} -> PlainTimeDiff(TA, TB, r.largest, r.smallest, r.inc, IF IsSince(c.op) THEN NegateMode(r.mode) ELSE r.mode, IsSince(c.op))
-         [] c.op \in {"Instant.until", "Instant.since"} -> InstantDiff(IA, IB, r.largest, r.smallest, r.inc, IF IsSince(c.op) THEN NegateMode(r.mode) ELSE r.mode, IsSince(c.op))
-         [] c.op = "PlainTime.round" -> PlainTimeRound(TB, r.smallest, r.inc, r.mode)
-         [] c.op = "Instant.round" -> InstantRound(IB, r.smallest, r.inc, r.mode)
-         [] c.op = "PlainDateTime.round" -> LET o == RoundDT(DB, r.smallest, r.inc, r.mode)
-                                            IN Ok([y |-> o.val.date.y, m |-> o.val.date.m, d |-> o.val.date.d, h |-> o.val.time.h, mi |-> o.val.time.mi,
-                                                   s |-> o.val.time.s, ms |-> o.val.time.ms, us |-> o.val.time.us, ns |-> o.val.time.ns])
-         [] c.op = "Duration.round" /\ r.largest \notin CalendarUnits /\ r.smallest \notin CalendarUnits -> DurRound(FixedDur, r.largest, r.smallest, r.inc, r.mode)
+  ELSE CASE c.op \in {"PlainTime.until", "PlainTime.since"} -> PlainTimeDiff(TA, TimeB(r), r.largest, r.smallest, r.inc, IF IsSince(c.op) THEN NegateMode(r.mode) ELSE r.mode, IsSince(c.op))
+         [] c.op \in {"Instant.until", "Instant.since"} -> InstantDiff(IA, InstB(r), r.largest, r.smallest, r.inc, IF IsSince(c.op) THEN NegateMode(r.mode) ELSE r.mode, IsSince(c.op))
+         [] c.op = "PlainTime.round" -> PlainTimeRound(TieTime(r), r.smallest, r.inc, r.mode)
+         [] c.op = "Instant.round" -> InstantRound(TieInst(r), r.smallest, r.inc, r.mode)
+         [] c.op = "PlainDateTime.round" -> LET o == RoundDT(TieDT(r), r.smallest, r.inc, r.mode) IN Ok(DTJ(o.val))
+         [] c.op = "Duration.round" /\ r.largest \notin CalendarUnits /\ r.smallest \notin CalendarUnits -> DurRound(FixedDur(r), r.largest, r.smallest, r.inc, r.mode)
          [] (c.op \in {"PlainDateTime.until", "PlainDateTime.since"} /\ r.smallest = "nanosecond" /\ r.inc = 1) ->
               IF IsSince(c.op) THEN SinceDT(DA, DB, r.largest) ELSE UntilDT(DA, DB, r.largest)
          [] (c.op \in {"PlainDate.until", "PlainDate.since"} /\ r.smallest = "day" /\ r.inc = 1) ->
@@ -63,7 +87,7 @@ ExpectedOut(c, r) ==
 
 Step(mode) == /\ last = None
               /\ LET r == ResolveCell(cell, mode)
-                 IN last' = [op |-> cell.op, mode |-> mode, res |-> r, out |-> ExpectedOut(cell, r)]
+                 IN last' = [op |-> cell.op, mode |-> mode, res |-> r, out |-> ExpectedOut(cell, r), operands |-> Operands(cell, r)]
               /\ UNCHANGED cell
 Next == \E mode \in ModeOpts : Step(mode)
 Spec == Init /\ [][Next]_vars
